@@ -34,7 +34,7 @@ CLAIMS = {
             "faults fail every position) on the model; exact correspondence under exhaustive single-fault enumeration and random multi-fault "
             "schedules; biconditional monitored at service and gRPC-handler level", "I.4 C06"),
     "C09": ("Theorems C09_advancing_attestation_signed / _proposal_signed (liveness over all well-formed histories), C09_batch_equals_singles "
-            "(every batch length), C09_scatter_partition (every n, p) on the model; liveness-direction correspondence, twin-instance "
+            "(every batch length), C09_scatter_partition, C09_scatter_no_index_twice, C09_scatter_workers_bounded (every n, p) on the model; liveness-direction correspondence, twin-instance "
             "batch-vs-singles runs over sizes x GOMAXPROCS, util.Scatter vs the model's extents", "I.4 C09"),
     "C10": ("Theorems C10_import_step, C10_wrong_metadata_rejected, C10_history (any interleaving of signing requests and imports), "
             "C10_dominated_is_refused on the model of the repaired import; exact correspondence with the real dirk binary's "
